@@ -268,6 +268,12 @@ class ConsumerMdib(mdibbase.MdibBase):
                             buffered_report.mdib_version_group.sequence_id,
                         )
                         continue
+                    if buffered_report.mdib_version_group.instance_id != self.instance_id:
+                        self.logger.debug(
+                            'wrong instance id "%r"; ignore buffered report',
+                            buffered_report.mdib_version_group.instance_id,
+                        )
+                        continue
                     if buffered_report.mdib_version_group.mdib_version <= self.mdib_version:
                         self.logger.debug(
                             'older mdib version "%d"; ignore buffered report',
@@ -452,6 +458,11 @@ class ConsumerMdib(mdibbase.MdibBase):
                 if self._state == ConsumerMdibState.initializing:
                     self._buffered_notifications.append(_BufferedData(mdib_version_group, report, handler))
                     return False
+            # initialization finished while this thread waited for the lock: sequence id and instance id of the mdib
+            # are known now, check them again.
+            self._check_sequence_or_instance_id_changed(mdib_version_group)
+            if self._state == ConsumerMdibState.invalid:
+                return False
         return True
 
     def process_incoming_metric_states_report(
